@@ -196,6 +196,17 @@ func c03Check(c c03Case) (fs []rep.Finding) {
 }
 
 func shShapes(thorough bool) []txRecipe {
+	out := shShapes0(thorough)
+	// coinbase-like transactions: input 0 spends the null outpoint, with final and non-final sequence
+	for _, nin := range []int{1, 2} {
+		for _, seq := range []uint32{0xffffffff, 0} {
+			out = append(out, txRecipe{V: 1, LT: 0, NIn: nin, NOut: 1, Vout: 1, Seq: seq, SLen: 3, PrevSats: 50, PrevLen: 2, Sats: 49, OLen: 25, NullIn0: true})
+		}
+	}
+	return out
+}
+
+func shShapes0(thorough bool) []txRecipe {
 	var out []txRecipe
 	vals := []struct {
 		u uint32
@@ -229,7 +240,7 @@ func shShapes(thorough bool) []txRecipe {
 
 func init() {
 	p2 := register(&Prop{ID: "C02", Level: "exploration",
-		Rule: "exhaustive product: tx shapes nIn 1..3 x nOut 0..3 (thorough: 1..4 x 0..4) x 3/6 boundary value sets (version, locktime, vout, sequence, spent value, output values in {0,1,max,mid}) x output script length {0,25,253} (thorough: {0,1,25,252,253}) x previous script of the signed input in {empty, 1 byte, contains 0xab, 253 bytes, P2PKH, missing} x previous txid {present, never set} x input index in {0..nIn-1, nIn, nIn+1, 2^32-1} x all 128 hash types with bit 0x40; oracle: preimage byte-identical to the reference FORKID preimage (reference certified on the node's 500 bip143 + 500 legacy vectors at the start of the run), digest = sha256d, errors exactly for missing input/txid/script, ExtendedBytes unchanged; plus hash -> in-place edit -> hash sequences (3/4 shapes x hash-type pairs x index pairs x 20 single edits incl. pointer replacement, swaps, append/remove) whose second hash must be that of the edited transaction. distinct_nontrivial = distinct reference preimages compared",
+		Rule: "exhaustive product: tx shapes nIn 1..3 x nOut 0..3 (thorough: 1..4 x 0..4) x 3/6 boundary value sets (version, locktime, vout, sequence, spent value, output values in {0,1,max,mid}; plus coinbase-like transactions whose first input spends the null outpoint) x output script length {0,25,253} (thorough: {0,1,25,252,253}) x previous script of the signed input in {empty, 1 byte, contains 0xab, 253 bytes, P2PKH, missing} x previous txid {present, never set} x input index in {0..nIn-1, nIn, nIn+1, 2^32-1} x all 128 hash types with bit 0x40; oracle: preimage byte-identical to the reference FORKID preimage (reference certified on the node's 500 bip143 + 500 legacy vectors at the start of the run), digest = sha256d, errors exactly for missing input/txid/script, ExtendedBytes unchanged; plus hash -> in-place edit -> hash sequences (3/4 shapes x hash-type pairs x index pairs x 20 single edits incl. pointer replacement, swaps, append/remove) whose second hash must be that of the edited transaction. distinct_nontrivial = distinct reference preimages compared",
 	})
 	s2 := NewSpace(p2, "forkid", c02Check)
 	NewSpace(p2, "forkid-seq", shSeqCheck)
